@@ -14,7 +14,8 @@ EXPLANATION = ("(1) TryFrom<Headers> for SessionRequest: Ok is reached only unde
                "every construction site of StatusCode in both crates either uses a constant in 100..=599 or is dominated by guards that bound "
                "the value to 100..=599 (interval derived from the path's comparisons); response parsing goes through that constructor; "
                "is_successful is [200,300); (3) RESERVED_HEADERS is exactly the five names and insert() writes only when not reserved; "
-               "(4) SessionRequest::new derives scheme guard/authority/path+query; (5) server refusal codes and client response handling tables.")
+               "(4) SessionRequest::new derives scheme guard/authority/path+query (string algebra); (5) server refusal codes and client response handling tables; "
+               "(6) the reserved-name guard and the map see the same string: Headers::insert / get are the identity on names and values.")
 NOT_DECIDED = ["the url crate's parsing", "arbitrary header maps at run time"]
 TRUSTED = ["rustc MIR", "std str::parse::<u16>, Range::contains", "url::Url accessors"]
 
